@@ -121,6 +121,27 @@ def tlc_gen(ctx, module, num, depth, seed, timeout=600):
     return scen[:num] if len(scen) > num else scen
 
 
+def tlc_gen_bfs(ctx, module, timeout=1200):
+    """Scenario generation by exhaustive enumeration: TLC explores breadth-first
+    every history of the configured length (BFS_* configurations, GenBFS = TRUE)
+    and prints each one."""
+    d = _spec_copy(ctx, "bfs_" + module)
+    cmd = _java("8g") + ["-workers", str(min(8, NCPU)), "-metadir", os.path.join(d, "md"), module + ".tla"]
+    try:
+        r = subprocess.run(cmd, cwd=d, capture_output=True, text=True, timeout=timeout)
+    except subprocess.TimeoutExpired:
+        raise ToolError("TLC enumeration timed out on %s" % module)
+    if "Model checking completed. No error has been found." not in r.stdout:
+        raise ToolError("TLC enumeration failed on %s:\n%s" % (module, r.stdout[-3000:]))
+    scen = []
+    for line in r.stdout.splitlines():
+        if line.startswith('<<"SCENARIO", '):
+            scen.append(json.loads(json.loads(line[len('<<"SCENARIO", '):-2])))
+    shutil.rmtree(d, ignore_errors=True)
+    scen.sort(key=lambda s: json.dumps(s, sort_keys=True))
+    return scen
+
+
 def write_scenarios(path, scens):
     with open(path, "w") as f:
         for s in scens:
